@@ -48,6 +48,8 @@ var archs = []arch{
 	{name: "VF", ns: "urn:vf", negotiable: true, fail: true},
 	{name: "MF", ns: "urn:mf", mandatory: true, negotiable: true, fail: true},
 	{name: "W", ns: "urn:w", negotiable: true, prohibited: xmpp.Secure},
+	// masks that overlap: a bit that is both necessary and prohibited can never be satisfied
+	{name: "O", ns: "urn:o", negotiable: true, necessary: xmpp.Secure, prohibited: xmpp.Secure | xmpp.Authn},
 }
 
 type event struct {
